@@ -26,6 +26,8 @@ if unit.get("pregen"):
     cmd += ["-ov", os.path.join(pkgdir, pg["file"]) + "=" + outp]
 for a, b in (unit.get("redirects") or {}).items():
     cmd += ["-redirect", a + "=" + b]
+for a in unit.get("init_allow") or []:
+    cmd += ["-init-allow", a]
 for h in args:
     cmd += ["-harness", h]
 env = dict(os.environ, GOFLAGS="-mod=mod", GOPROXY="off", GOSUMDB="off", GOTOOLCHAIN="local",
